@@ -40,21 +40,21 @@ func (e *EnumInfo) byName(n string) *types.Const {
 
 type Anchors struct {
 	// exec
-	Entry       map[string]*types.Func // Query First Exists Match
-	EntryOrder  []string
-	Executor    *types.Named
-	ExecStruct  *types.Struct
+	Entry                                      map[string]*types.Func // Query First Exists Match
+	EntryOrder                                 []string
+	Executor                                   *types.Named
+	ExecStruct                                 *types.Struct
 	ErrExecution, ErrVerbose, ErrInvalid, NULL *types.Var
-	ErrParse, ErrPath, ErrScan, ErrSQLType      *types.Var
-	WithSilent, WithTZ, WithVars                *types.Func
-	VerboseField, UseTZField, VarsField         *types.Var
+	ErrParse, ErrPath, ErrScan, ErrSQLType     *types.Var
+	WithSilent, WithTZ, WithVars               *types.Func
+	VerboseField, UseTZField, VarsField        *types.Var
 
 	// ast
 	Node       *types.Named
 	NodeIface  *types.Interface
 	NodeKinds  []*types.Named // exported concrete node types (pointer receivers)
 	ASTType    *types.Named
-	Enums      map[string]*EnumInfo // Constant BinaryOperator UnaryOperator MethodName
+	Enums      map[string]*EnumInfo  // Constant BinaryOperator UnaryOperator MethodName
 	ASTStructs map[*types.Named]bool // all named struct types of package ast
 
 	// types
